@@ -45,10 +45,14 @@ impl Default for IBig {
 
 pub(crate) fn words_to_le_bytes<const FLIP: bool>(words: &[Word]) -> Vec<u8> {
     debug_assert!(!words.is_empty());
+    let skip_last_bytes = words[words.len() - 1].leading_zeros() as usize / 8;
+    words_to_le_bytes_skip::<FLIP>(words, skip_last_bytes)
+}
 
+/// Same as [words_to_le_bytes], but the number of omitted high bytes of the top word is given.
+fn words_to_le_bytes_skip<const FLIP: bool>(words: &[Word], skip_last_bytes: usize) -> Vec<u8> {
     let n = words.len();
     let last = words[n - 1];
-    let skip_last_bytes = last.leading_zeros() as usize / 8;
     let mut bytes = Vec::with_capacity(n * WORD_BYTES - skip_last_bytes);
     for word in &words[..n - 1] {
         let word = if FLIP { !*word } else { *word };
@@ -62,10 +66,14 @@ pub(crate) fn words_to_le_bytes<const FLIP: bool>(words: &[Word]) -> Vec<u8> {
 
 fn words_to_be_bytes<const FLIP: bool>(words: &[Word]) -> Vec<u8> {
     debug_assert!(!words.is_empty());
+    let skip_last_bytes = words[words.len() - 1].leading_zeros() as usize / 8;
+    words_to_be_bytes_skip::<FLIP>(words, skip_last_bytes)
+}
 
+/// Same as [words_to_be_bytes], but the number of omitted high bytes of the top word is given.
+fn words_to_be_bytes_skip<const FLIP: bool>(words: &[Word], skip_last_bytes: usize) -> Vec<u8> {
     let n = words.len();
     let last = words[n - 1];
-    let skip_last_bytes = last.leading_zeros() as usize / 8;
     let mut bytes = Vec::with_capacity(n * WORD_BYTES - skip_last_bytes);
     let last = if FLIP { !last } else { last };
     let last_bytes = last.to_be_bytes();
@@ -171,7 +179,9 @@ impl TypedReprRef<'_> {
                 RefLarge(words) => {
                     let mut buffer = Buffer::from(words);
                     debug_assert_zero!(add::sub_one_in_place(&mut buffer));
-                    words_to_le_bytes::<true>(&buffer)
+                    // the byte length is that of the magnitude (the decrement can clear the top byte)
+                    let skip = words.last().unwrap().leading_zeros() as usize / 8;
+                    words_to_le_bytes_skip::<true>(&buffer, skip)
                 }
             }
         } else {
@@ -219,7 +229,9 @@ impl TypedReprRef<'_> {
                 RefLarge(words) => {
                     let mut buffer = Buffer::from(words);
                     debug_assert_zero!(add::sub_one_in_place(&mut buffer));
-                    words_to_be_bytes::<true>(&buffer)
+                    // the byte length is that of the magnitude (the decrement can clear the top byte)
+                    let skip = words.last().unwrap().leading_zeros() as usize / 8;
+                    words_to_be_bytes_skip::<true>(&buffer, skip)
                 }
             }
         } else {
